@@ -54,12 +54,16 @@ func fuzzOne(t *testing.T, e *env, names []string, data []byte, cut uint16) {
 // ignoreCritical values and the hand-written entry points), cut the segmentation.
 func FuzzC04Decoders(f *testing.F) {
 	e := envForFuzz(f)
+	idx := map[string]int{}
+	for i := range e.targets {
+		idx[e.targets[i].name] = i
+	}
 	for _, s := range seeds(e) {
-		for i := range e.targets {
-			if e.targets[i].name == s.target {
-				f.Add(s.data, uint16(i), uint16(len(s.data)/2))
-				break
-			}
+		// every target gets its valid encoding; the hostile constants go to every 16th target
+		// (the mutator spreads them: sel is part of the input)
+		i := idx[s.target]
+		if len(s.src) >= 5 && s.src[:5] == "valid" || i%16 == 0 {
+			f.Add(s.data, uint16(i), uint16(len(s.data)/2))
 		}
 	}
 	f.Fuzz(func(t *testing.T, data []byte, sel uint16, cut uint16) {
